@@ -168,6 +168,8 @@ def run(ck):
                           dict(request=ln, with_debug_assertions=i, without_debug_assertions=i2, spec_pass=want), no_input=((i2 == "[]") == want and len(i2.split(";")) <= 1))
     ck.corr_record("T4 set_match in two build profiles (the same requests against the harness built with and without debug assertions / overflow checks)",
                    len(lines), len(nontrivial), d2, {}, samples=[dict(request=lines[0])], exhaustive=True, rule="same request set as above")
+    import parsetie
+    parsetie.light_tie(ck, "C10: the compiled programs' expectations read patterns with the model parser")
     ck.assumptions += [
         "predicates are modelled as a pure Boolean matrix M k i (the macro's probe closures are deterministic functions of the element; tied at macro level by C01-C03's correspondence)",
     ]
